@@ -33,17 +33,18 @@ inductive H where
   | tt | ff
   | not (a : H) | and (a b : H) | or (a b : H) | imp (a b : H) | xor (a b : H)
   | eq (a b : H)                        -- equation between terms of a base type (bool: iff)
-  | eqFun                               -- equation between function- or set-typed terms
+  | eqFun (k : Nat)                     -- equation between function- or set-typed terms (k: index of its value in the oracle)
   | ite (c a b : H)
   | all (x : String) (T : Ty) (b : H) | ex (x : String) (T : Ty) (b : H)
-  | add (a b : H) | sub (isNat : Bool) (a b : H) | mul (a b : H) | div (a b : H) | neg (a : H)
+  | add (a b : H) | sub (isNat : Bool) (a b : H) | mul (a b : H) | div (a b : H)
+  | neg (isNat : Bool) (a : H)          -- unary minus; on nat it is declared but unspecified
   | le (a b : H) | lt (a b : H) | ge (a b : H) | gt (a b : H)
   | ofNat (a : H)                       -- of_nat :: nat => real, argument not a free variable
   | ofNatVar (x : String)               -- of_nat x for a free variable x :: nat
   | max (a b : H) | min (a b : H) | abs (isReal : Bool) (a : H)
   | app (f : String) (dom cod : Ty) (a : H)   -- variable f :: dom => cod applied
   | mem (a : H) (S : String) (dom : Ty)       -- a ∈ S for a variable S :: dom set
-  | unsup                               -- anything on which convert raises Z3Exception
+  | unsup (k : Nat)                     -- anything on which convert raises Z3Exception (k: index of its value in the oracle)
   deriving Repr, Inhabited
 
 inductive Z where
@@ -214,7 +215,10 @@ def conv (env : List (String × Ty)) : H → M R
           noteNat nm T (.const nm T.srt)
           pure (.z (.bv i T.srt))
       | none => failM .crash
-  | .num T q => pure (if T == .real then .z (.rlit q) else .pi q.num)
+  | .num T q =>
+      -- `-n` is a number at every type, but uminus has no meaning on nat (fix C06-9)
+      if T == .nat && q.num < 0 then failM .z3exc
+      else pure (if T == .real then .z (.rlit q) else .pi q.num)
   | .tt => pure (.z (.bconst true))
   | .ff => pure (.z (.bconst false))
   | .not a => do
@@ -241,7 +245,7 @@ def conv (env : List (String × Ty)) : H → M R
   | .eq a b => do
       let a' ← conv env a; let b' ← conv env b
       liftE (eqR a' b')
-  | .eqFun => failM .z3exc
+  | .eqFun _ => failM .z3exc
   | .ite c a b => do
       let c' ← conv env c; let a' ← conv env a; let b' ← conv env b
       liftE (iteR c' a' b')
@@ -282,7 +286,9 @@ def conv (env : List (String × Ty)) : H → M R
       match a', b' with
       | .z x, .z y => pure (.z (.div x y))
       | _, _ => failM .crash
-  | .neg a => do
+  | .neg isNat a =>
+      if isNat then failM .z3exc      -- fix C06-9: raised before the argument is visited
+      else do
       let a' ← conv env a
       match a' with
       | .pi n => pure (.pi (-n))
@@ -328,15 +334,11 @@ def conv (env : List (String × Ty)) : H → M R
       | .pb _ => failM .crash
   | .app f dom cod a => do
       let a' ← conv env a
-      match a' with
-      | .pb _ => failM .crash
-      | r => pure (.z (.app f dom.srt cod.srt r.toZ))
+      pure (.z (.app f dom.srt cod.srt a'.toZ))
   | .mem a S dom => do
       let a' ← conv env a
-      match a' with
-      | .pb _ => failM .crash
-      | r => pure (.z (.app S dom.srt .bool r.toZ))
-  | .unsup => failM .z3exc
+      pure (.z (.app S dom.srt .bool a'.toZ))
+  | .unsup _ => failM .z3exc
 
 /-- `convert(t, var_names, assms, to_real, ctx)` -/
 def convert (t : H) : M R := conv [] t
@@ -469,42 +471,51 @@ def vabs (isReal : Bool) (a : Val K) : Val K :=
 
 variable (Q : Quant K)
 
+/-- Values the model does not determine: of the subterms outside the translated fragment
+(`unsup k`, `eqFun k`: any value) and of `uminus` on nat (declared in the library, specified for
+int and real only: any function).  The theorems hold for every oracle. -/
+structure Oracle (K : Type) where
+  other : Nat → Val K
+  negNat : Val K → Val K
+
 /-- HOL semantics.  `σ` values of variables (by name), `F` of function and set variables, `ρ` of
 bound variables.  Natural-number variables hold `.i n` with `0 ≤ n` (see `Admissible`). -/
-def evalH (σ : String → Val K) (F : String → Val K → Val K) : List (Val K) → H → Val K
+def evalH (O : Oracle K) (σ : String → Val K) (F : String → Val K → Val K) : List (Val K) → H → Val K
   | _, .var x _ => σ x
   | ρ, .bv i => ρ.getD i (.b false)
-  | _, .num T q => if T == .real then .r (N.ofRat q) else .i q.num
+  | _, .num T q =>
+      if T == .nat && q.num < 0 then O.negNat (.i (-q.num))
+      else if T == .real then .r (N.ofRat q) else .i q.num
   | _, .tt => .b true
   | _, .ff => .b false
-  | ρ, .not a => vnot (evalH σ F ρ a)
-  | ρ, .and a b => vand (evalH σ F ρ a) (evalH σ F ρ b)
-  | ρ, .or a b => vor (evalH σ F ρ a) (evalH σ F ρ b)
-  | ρ, .imp a b => vimp (evalH σ F ρ a) (evalH σ F ρ b)
-  | ρ, .xor a b => .b (asBool (evalH σ F ρ a) != asBool (evalH σ F ρ b))
-  | ρ, .eq a b => veq N (evalH σ F ρ a) (evalH σ F ρ b)
-  | _, .eqFun => .b false
-  | ρ, .ite c a b => vite (evalH σ F ρ c) (evalH σ F ρ a) (evalH σ F ρ b)
-  | ρ, .all _ T b => .b (Q.allH T (fun v => asBool (evalH σ F (v :: ρ) b)))
-  | ρ, .ex _ T b => .b (Q.exH T (fun v => asBool (evalH σ F (v :: ρ) b)))
-  | ρ, .add a b => vadd N (evalH σ F ρ a) (evalH σ F ρ b)
+  | ρ, .not a => vnot (evalH O σ F ρ a)
+  | ρ, .and a b => vand (evalH O σ F ρ a) (evalH O σ F ρ b)
+  | ρ, .or a b => vor (evalH O σ F ρ a) (evalH O σ F ρ b)
+  | ρ, .imp a b => vimp (evalH O σ F ρ a) (evalH O σ F ρ b)
+  | ρ, .xor a b => .b (asBool (evalH O σ F ρ a) != asBool (evalH O σ F ρ b))
+  | ρ, .eq a b => veq N (evalH O σ F ρ a) (evalH O σ F ρ b)
+  | _, .eqFun k => O.other k
+  | ρ, .ite c a b => vite (evalH O σ F ρ c) (evalH O σ F ρ a) (evalH O σ F ρ b)
+  | ρ, .all _ T b => .b (Q.allH T (fun v => asBool (evalH O σ F (v :: ρ) b)))
+  | ρ, .ex _ T b => .b (Q.exH T (fun v => asBool (evalH O σ F (v :: ρ) b)))
+  | ρ, .add a b => vadd N (evalH O σ F ρ a) (evalH O σ F ρ b)
   | ρ, .sub isNat a b =>
-      if isNat then vtsub N (evalH σ F ρ a) (evalH σ F ρ b) else vsub N (evalH σ F ρ a) (evalH σ F ρ b)
-  | ρ, .mul a b => vmul N (evalH σ F ρ a) (evalH σ F ρ b)
-  | ρ, .div a b => vdivH N (evalH σ F ρ a) (evalH σ F ρ b)
-  | ρ, .neg a => vneg N (evalH σ F ρ a)
-  | ρ, .le a b => vle N (evalH σ F ρ a) (evalH σ F ρ b)
-  | ρ, .lt a b => vlt N (evalH σ F ρ a) (evalH σ F ρ b)
-  | ρ, .ge a b => vge N (evalH σ F ρ a) (evalH σ F ρ b)
-  | ρ, .gt a b => vgt N (evalH σ F ρ a) (evalH σ F ρ b)
-  | ρ, .ofNat a => vtoReal N (evalH σ F ρ a)
+      if isNat then vtsub N (evalH O σ F ρ a) (evalH O σ F ρ b) else vsub N (evalH O σ F ρ a) (evalH O σ F ρ b)
+  | ρ, .mul a b => vmul N (evalH O σ F ρ a) (evalH O σ F ρ b)
+  | ρ, .div a b => vdivH N (evalH O σ F ρ a) (evalH O σ F ρ b)
+  | ρ, .neg isNat a => if isNat then O.negNat (evalH O σ F ρ a) else vneg N (evalH O σ F ρ a)
+  | ρ, .le a b => vle N (evalH O σ F ρ a) (evalH O σ F ρ b)
+  | ρ, .lt a b => vlt N (evalH O σ F ρ a) (evalH O σ F ρ b)
+  | ρ, .ge a b => vge N (evalH O σ F ρ a) (evalH O σ F ρ b)
+  | ρ, .gt a b => vgt N (evalH O σ F ρ a) (evalH O σ F ρ b)
+  | ρ, .ofNat a => vtoReal N (evalH O σ F ρ a)
   | _, .ofNatVar x => vtoReal N (σ x)
-  | ρ, .max a b => vmax N (evalH σ F ρ a) (evalH σ F ρ b)
-  | ρ, .min a b => vmin N (evalH σ F ρ a) (evalH σ F ρ b)
-  | ρ, .abs isReal a => vabs N isReal (evalH σ F ρ a)
-  | ρ, .app f _ _ a => F f (evalH σ F ρ a)
-  | ρ, .mem a S _ => F S (evalH σ F ρ a)
-  | _, .unsup => .b false
+  | ρ, .max a b => vmax N (evalH O σ F ρ a) (evalH O σ F ρ b)
+  | ρ, .min a b => vmin N (evalH O σ F ρ a) (evalH O σ F ρ b)
+  | ρ, .abs isReal a => vabs N isReal (evalH O σ F ρ a)
+  | ρ, .app f _ _ a => F f (evalH O σ F ρ a)
+  | ρ, .mem a S _ => F S (evalH O σ F ρ a)
+  | _, .unsup k => O.other k
 
 /-- Z3 semantics, for a given interpretation `div0` of division by zero. -/
 def evalZ (div0 : K → K) (σ : String → Val K) (F : String → Val K → Val K) : List (Val K) → Z → Val K
